@@ -14,9 +14,10 @@ Section CC.
   Notation run := (run d nr defs).
 
   (** ** named semantics *)
-  Definition nenv := list (bytes * val).
-  Fixpoint lookup (rho : nenv) (x : bytes) : option val :=
-    match rho with [] => None | (y, a) :: r => if bytes_eqb x y then Some a else lookup r x end.
+  (** names (variables and labels) to what they are bound to *)
+  Definition nenv := list (cbind * bind).
+  Fixpoint lookup (rho : nenv) (x : cbind) : option bind :=
+    match rho with [] => None | (y, a) :: r => if cbind_eqb x y then Some a else lookup r x end.
 
   (** folding over the outputs of a generator: [step y acc] updates, [emit y z] is what one round yields, [fin acc] the end *)
   Fixpoint fold_go (step : val -> val -> str val) (emit : val -> val -> str val) (fin : val -> str val)
@@ -29,46 +30,48 @@ Section CC.
     | SUnk => SUnk
     end.
 
-  Fixpoint sem (n : nat) (t : pterm) (rho : nenv) (v : val) {struct n} : str val :=
+  Fixpoint sem (n : nat) (t : pterm) (rho : nenv) (lab : nat) (v : val) {struct n} : str val :=
     match n with
     | O => SBot
     | S n =>
-        let cart := fun l r => sbind (sem n l rho v) (fun x => smap (fun y => (x, y)) (sem n r rho v)) in
+        let cart := fun l r => sbind (sem n l rho lab v) (fun x => smap (fun y => (x, y)) (sem n r rho lab v)) in
         match t with
         | PId => sone v
         | PNum x => sone (match int_literal x with Some i => vint i | None => Num (from_str x) end)
-        | PVar x => match lookup rho x with Some a => sone a | None => SUnk end
-        | PNeg t => sbind (sem n t rho v) (fun x => of_res (vneg x))
-        | PArr (Some t) => collect_then (sem n t rho v) (fun l => sone (Arr l))
-        | PTryCatch t (Some c) => stry (sem n t rho v) (fun e => sem n c rho (err_val d e))
-        | PIte [(i, th)] (Some el) => sbind (sem n i rho v) (fun x => sem n (if as_bool x then th else el) rho v)
+        | PVar x => match lookup rho (CVar x) with Some (BVar a) => sone a | _ => SUnk end
+        | PBreak x => match lookup rho (CLabel x) with Some (BLabel l) => SExn (XBreak l) | _ => SUnk end
+        | PLabel x t => slabel (S lab) (sem n t ((CLabel x, BLabel (S lab)) :: rho) (S lab) v)
+        | PNeg t => sbind (sem n t rho lab v) (fun x => of_res (vneg x))
+        | PArr (Some t) => collect_then (sem n t rho lab v) (fun l => sone (Arr l))
+        | PTryCatch t (Some c) => stry (sem n t rho lab v) (fun e => sem n c rho lab (err_val d e))
+        | PIte [(i, th)] (Some el) => sbind (sem n i rho lab v) (fun x => sem n (if as_bool x then th else el) rho lab v)
         | PBinOp l op r =>
             match op with
-            | BPipe None => sbind (sem n l rho v) (fun y => sem n r rho y)
-            | BPipe (Some (PPVar x)) => sbind (sem n l rho v) (fun y => sem n r ((x, y) :: rho) v)
-            | BComma => sapp (sem n l rho v) (fun _ => sem n r rho v)
-            | BAlt => match sfilter as_bool (sem n l rho v) with SNil => sem n r rho v | s => s end
+            | BPipe None => sbind (sem n l rho lab v) (fun y => sem n r rho lab y)
+            | BPipe (Some (PPVar x)) => sbind (sem n l rho lab v) (fun y => sem n r ((CVar x, BVar y) :: rho) lab v)
+            | BComma => sapp (sem n l rho lab v) (fun _ => sem n r rho lab v)
+            | BAlt => match sfilter as_bool (sem n l rho lab v) with SNil => sem n r rho lab v | s => s end
             | BMath o => sbind (cart l r) (fun xy => of_res_opt (math_run o (fst xy) (snd xy)))
             | BCmp o => smap (fun xy => Bool (cmp_run o (fst xy) (snd xy))) (cart l r)
-            | BOr => sbind (sem n l rho v) (fun x => if Bool.eqb (as_bool x) true then sone (Bool true)
-                                                     else smap (fun y => Bool (as_bool y)) (sem n r rho v))
-            | BAnd => sbind (sem n l rho v) (fun x => if Bool.eqb (as_bool x) false then sone (Bool false)
-                                                      else smap (fun y => Bool (as_bool y)) (sem n r rho v))
+            | BOr => sbind (sem n l rho lab v) (fun x => if Bool.eqb (as_bool x) true then sone (Bool true)
+                                                     else smap (fun y => Bool (as_bool y)) (sem n r rho lab v))
+            | BAnd => sbind (sem n l rho lab v) (fun x => if Bool.eqb (as_bool x) false then sone (Bool false)
+                                                      else smap (fun y => Bool (as_bool y)) (sem n r rho lab v))
             | _ => SUnk
             end
-        | PPath t path => sbind (sem n t rho v) (fun y => sbind (sexplode n path rho v) (fun ps => path_run ps y))
+        | PPath t path => sbind (sem n t rho lab v) (fun y => sbind (sexplode n path rho lab v) (fun ps => path_run ps y))
         | PFold name xs (PPVar x) (init :: upd :: rest) =>
-            let xsv := match n with O => SBot | S n' => sem n' xs rho v end in
-            let step := fun y acc => sem n upd ((x, y) :: rho) acc in
+            let xsv := match n with O => SBot | S n' => sem n' xs rho lab v end in
+            let step := fun y acc => sem n upd ((CVar x, BVar y) :: rho) lab acc in
             if bytes_eqb name name_reduce then
               match rest with
-              | [] => sbind (sem n init rho v) (fold_go step (fun _ _ => SNil) sone xsv)
+              | [] => sbind (sem n init rho lab v) (fold_go step (fun _ _ => SNil) sone xsv)
               | _ => SUnk
               end
             else if bytes_eqb name name_foreach then
               match rest with
-              | [] => sbind (sem n init rho v) (fold_go step (fun _ z => sone z) (fun _ => SNil) xsv)
-              | [proj] => sbind (sem n init rho v) (fold_go step (fun y z => sem n proj ((x, y) :: rho) z) (fun _ => SNil) xsv)
+              | [] => sbind (sem n init rho lab v) (fold_go step (fun _ z => sone z) (fun _ => SNil) xsv)
+              | [proj] => sbind (sem n init rho lab v) (fold_go step (fun y z => sem n proj ((CVar x, BVar y) :: rho) lab z) (fun _ => SNil) xsv)
               | _ => SUnk
               end
             else SUnk
@@ -77,7 +80,7 @@ Section CC.
     end
 
   (** the index values of a path, all combinations, first component outermost (as [Path::explode]) *)
-  with sexplode (n : nat) (path : list (ppart * bool)) (rho : nenv) (v : val) {struct n} : str (list (vpart * bool)) :=
+  with sexplode (n : nat) (path : list (ppart * bool)) (rho : nenv) (lab : nat) (v : val) {struct n} : str (list (vpart * bool)) :=
     match n with
     | O => SBot
     | S n =>
@@ -86,28 +89,28 @@ Section CC.
         | (p, opt) :: rest =>
             let ps :=
               match p with
-              | PIndex i => smap VIndex (sem n i rho v)
+              | PIndex i => smap VIndex (sem n i rho lab v)
               | PRange None None => sone (VRange None None)
-              | PRange (Some f) None => smap (fun x => VRange (Some x) None) (sem n f rho v)
-              | PRange None (Some u) => smap (fun x => VRange None (Some x)) (sem n u rho v)
+              | PRange (Some f) None => smap (fun x => VRange (Some x) None) (sem n f rho lab v)
+              | PRange None (Some u) => smap (fun x => VRange None (Some x)) (sem n u rho lab v)
               | PRange (Some f) (Some u) =>
-                  sbind (sem n f rho v) (fun x => smap (fun y => VRange (Some x) (Some y)) (sem n u rho v))
+                  sbind (sem n f rho lab v) (fun x => smap (fun y => VRange (Some x) (Some y)) (sem n u rho lab v))
               end in
-            sbind ps (fun p' => smap (fun r => (p', opt) :: r) (sexplode n rest rho v))
+            sbind ps (fun p' => smap (fun r => (p', opt) :: r) (sexplode n rest rho lab v))
         end
     end.
 
   (** ** the fragment, with the variables in scope and a bound on the nesting *)
-  Inductive frag : list bytes -> nat -> pterm -> Prop :=
+  Inductive frag : list cbind -> nat -> pterm -> Prop :=
   | f_id b n : frag b (S n) PId
   | f_num b n x : frag b (S n) (PNum x)
-  | f_var b n x : In x b -> frag b (S n) (PVar x)
+  | f_var b n x : In (CVar x) b -> frag b (S n) (PVar x)
   | f_neg b n t : frag b n t -> frag b (S n) (PNeg t)
   | f_arr b n t : frag b n t -> frag b (S n) (PArr (Some t))
   | f_try b n t c : frag b n t -> frag b n c -> frag b (S n) (PTryCatch t (Some c))
   | f_ite b n i th el : frag b n i -> frag b n th -> frag b n el -> frag b (S n) (PIte [(i, th)] (Some el))
   | f_pipe b n l r : frag b n l -> frag b n r -> frag b (S n) (PBinOp l (BPipe None) r)
-  | f_bind b n l x r : frag b n l -> frag (x :: b) n r -> frag b (S (S n)) (PBinOp l (BPipe (Some (PPVar x))) r)
+  | f_bind b n l x r : frag b n l -> frag (CVar x :: b) n r -> frag b (S (S n)) (PBinOp l (BPipe (Some (PPVar x))) r)
   | f_comma b n l r : frag b n l -> frag b n r -> frag b (S n) (PBinOp l BComma r)
   | f_alt b n l r : frag b n l -> frag b n r -> frag b (S n) (PBinOp l BAlt r)
   | f_math b n l o r : frag b n l -> frag b n r -> frag b (S n) (PBinOp l (BMath o) r)
@@ -115,13 +118,15 @@ Section CC.
   | f_or b n l r : frag b n l -> frag b n r -> frag b (S n) (PBinOp l BOr r)
   | f_and b n l r : frag b n l -> frag b n r -> frag b (S n) (PBinOp l BAnd r)
   | f_path b n t ps : frag b n t -> frag_parts b n ps -> frag b (S n) (PPath t ps)
-  | f_reduce b n xs x init upd : frag b n xs -> frag b (S n) init -> frag (x :: b) (S n) upd ->
+  | f_reduce b n xs x init upd : frag b n xs -> frag b (S n) init -> frag (CVar x :: b) (S n) upd ->
       frag b (S (S n)) (PFold name_reduce xs (PPVar x) [init; upd])
-  | f_foreach b n xs x init upd : frag b n xs -> frag b (S n) init -> frag (x :: b) (S n) upd ->
+  | f_foreach b n xs x init upd : frag b n xs -> frag b (S n) init -> frag (CVar x :: b) (S n) upd ->
       frag b (S (S n)) (PFold name_foreach xs (PPVar x) [init; upd])
-  | f_foreach3 b n xs x init upd proj : frag b n xs -> frag b (S n) init -> frag (x :: b) (S n) upd -> frag (x :: b) (S n) proj ->
+  | f_foreach3 b n xs x init upd proj : frag b n xs -> frag b (S n) init -> frag (CVar x :: b) (S n) upd -> frag (CVar x :: b) (S n) proj ->
       frag b (S (S n)) (PFold name_foreach xs (PPVar x) [init; upd; proj])
-  with frag_parts : list bytes -> nat -> list (ppart * bool) -> Prop :=
+  | f_label b n x t : frag (CLabel x :: b) n t -> frag b (S n) (PLabel x t)
+  | f_break b n x : In (CLabel x) b -> frag b (S n) (PBreak x)
+  with frag_parts : list cbind -> nat -> list (ppart * bool) -> Prop :=
   | fp_nil b n : frag_parts b n []
   | fp_index b n i o ps : frag b n i -> frag_parts b n ps -> frag_parts b n ((PIndex i, o) :: ps)
   | fp_all b n o ps : frag_parts b n ps -> frag_parts b n ((PRange None None, o) :: ps)
@@ -135,12 +140,15 @@ Section CC.
 
   (** the compile-time environment knows the variables in scope; the run-time context holds their values at the
       positions the compiler computes *)
-  Definition scoped (b : list bytes) (e : env) : Prop := forall x, In x b -> index_of (CVar x) (e_vars e) 0 <> None.
+  Definition scoped (b : list cbind) (e : env) : Prop := forall x, In x b -> index_of x (e_vars e) 0 <> None.
+  Definition kind_ok (x : cbind) (a : bind) : Prop :=
+    match x, a with CVar _, BVar _ | CLabel _, BLabel _ => True | _, _ => False end.
   Definition agrees (e : env) (c : ctx) (rho : nenv) : Prop :=
-    forall x i, index_of (CVar x) (e_vars e) 0 = Some i -> exists a, nth_error (vars c) i = Some (BVar a) /\ lookup rho x = Some a.
+    forall x i, index_of x (e_vars e) 0 = Some i ->
+    exists a, nth_error (vars c) i = Some a /\ lookup rho x = Some a /\ kind_ok x a.
 
-  Lemma cbind_eqb_var x y : cbind_eqb (CVar x) (CVar y) = bytes_eqb x y.
-  Proof. reflexivity. Qed.
+  Lemma cbind_eqb_refl x : cbind_eqb x x = true.
+  Proof. destruct x; cbn; destruct (bytes_eqb_spec x x); congruence. Qed.
 
   Lemma index_of_shift b l : forall i k, index_of b l (S i) = Some (S k) <-> index_of b l i = Some k.
   Proof.
@@ -154,23 +162,34 @@ Section CC.
     destruct (cbind_eqb b a); [intros H; injection H as <-; lia|intros H; apply IH in H; lia].
   Qed.
 
-  Lemma scoped_push b e x : scoped b e -> scoped (x :: b) (push_var (CVar x) e).
+  Lemma scoped_push b e x : scoped b e -> scoped (x :: b) (push_var x e).
   Proof.
     intros H y [<-|Hy]; unfold push_var; cbn [e_vars index_of].
-    - rewrite cbind_eqb_var. destruct (bytes_eqb_spec x x); [discriminate|congruence].
-    - rewrite cbind_eqb_var. destruct (bytes_eqb y x); [discriminate|].
-      specialize (H y Hy). destruct (index_of (CVar y) (e_vars e) 0) as [k|] eqn:E; [|congruence].
-      apply (proj2 (index_of_shift (CVar y) (e_vars e) 0 k)) in E. rewrite E. discriminate.
+    - rewrite cbind_eqb_refl. discriminate.
+    - destruct (cbind_eqb y x); [discriminate|].
+      specialize (H y Hy). destruct (index_of y (e_vars e) 0) as [k|] eqn:E; [|congruence].
+      apply (proj2 (index_of_shift y (e_vars e) 0 k)) in E. rewrite E. discriminate.
   Qed.
 
-  Lemma agrees_push e c rho x a : agrees e c rho -> agrees (push_var (CVar x) e) (cons_var a c) ((x, a) :: rho).
+  Lemma cbind_eqb_eq x y : cbind_eqb x y = true -> x = y.
+  Proof. destruct x, y; cbn; try discriminate; intros H; destruct (bytes_eqb_spec x x0); congruence. Qed.
+
+  Lemma agrees_push_gen e (c c' : ctx) rho x a :
+    vars c' = a :: vars c -> kind_ok x a -> agrees e c rho -> agrees (push_var x e) c' ((x, a) :: rho).
   Proof.
-    intros H y i. unfold push_var, cons_var. cbn [e_vars vars index_of lookup]. rewrite cbind_eqb_var.
-    destruct (bytes_eqb y x) eqn:E.
-    - intros Hi. injection Hi as <-. exists a. split; reflexivity.
+    intros Hv Hk H y i. unfold push_var. cbn [e_vars index_of lookup]. rewrite Hv.
+    destruct (cbind_eqb y x) eqn:E.
+    - intros Hi. injection Hi as <-. exists a. apply cbind_eqb_eq in E. subst y. repeat split; assumption.
     - intros Hi. destruct i as [|i]; [apply index_of_ge in Hi; lia|].
-      apply (proj1 (index_of_shift (CVar y) (e_vars e) 0 i)) in Hi. destruct (H y i Hi) as (a' & Hn & Hl). exists a'. split; [exact Hn|exact Hl].
+      apply (proj1 (index_of_shift y (e_vars e) 0 i)) in Hi. destruct (H y i Hi) as (a' & Hn & Hl & Hk'). exists a'. repeat split; assumption.
   Qed.
+
+  Lemma agrees_push e c rho x a : agrees e c rho -> agrees (push_var (CVar x) e) (cons_var a c) ((CVar x, BVar a) :: rho).
+  Proof. apply agrees_push_gen; [reflexivity|exact I]. Qed.
+
+  Lemma agrees_push_label e c rho x :
+    agrees e c rho -> agrees (push_var (CLabel x) e) (cons_label c) ((CLabel x, BLabel (S (labels c))) :: rho).
+  Proof. apply agrees_push_gen; [reflexivity|exact I]. Qed.
 
   Ltac fuel0 := intros fuel c rho v Hag; destruct fuel as [|fuel]; [reflexivity|]; cbn [Run.run sem].
 
@@ -292,14 +311,14 @@ Section CC.
       rewrite He. f_equal. apply functional_extensionality. intros []. apply IH.
   Qed.
 
-  Definition P_term (b : list bytes) (n : nat) (t : pterm) : Prop :=
+  Definition P_term (b : list cbind) (n : nat) (t : pterm) : Prop :=
     forall m e s tr, (n <= m)%nat -> scoped b e ->
     exists k trr, c_term g m e s t tr = ((k, trr), s)
-                  /\ forall fuel c rho v, agrees e c rho -> run fuel k c v = sem fuel t rho v.
-  Definition P_parts (b : list bytes) (n : nat) (ps : list (ppart * bool)) : Prop :=
+                  /\ forall fuel c rho v, agrees e c rho -> run fuel k c v = sem fuel t rho (labels c) v.
+  Definition P_parts (b : list cbind) (n : nat) (ps : list (ppart * bool)) : Prop :=
     forall m e s, (n <= m)%nat -> scoped b e ->
     exists cps, c_parts m e s ps = (cps, s)
-                /\ forall fuel c rho v, agrees e c rho -> explode fuel cps c v = sexplode fuel ps rho v.
+                /\ forall fuel c rho v, agrees e c rho -> explode fuel cps c v = sexplode fuel ps rho (labels c) v.
 
   Ltac fuelx := intros fuel c rho v Hag; destruct fuel as [|fuel]; [reflexivity|]; rewrite ?explode_cons; cbn [sexplode].
 
@@ -308,9 +327,9 @@ Section CC.
     apply frag_mutind; unfold P_term, P_parts.
     - intros b n m e s tr Hm Hsc. destruct m as [|m]; [lia|]. (* . *) exists KId, []. split; [reflexivity|]. fuel0. reflexivity.
     - intros b n x m e s tr Hm Hsc. destruct m as [|m]; [lia|]. (* number *) eexists _, []. split; [reflexivity|]. fuel0. destruct (int_literal x); reflexivity.
-    - intros b n x Hx m e s tr Hm Hsc. destruct m as [|m]; [lia|]. (* variable *) specialize (Hsc x Hx). destruct (index_of (CVar x) (e_vars e) 0) as [i|] eqn:E; [|congruence].
+    - intros b n x Hx m e s tr Hm Hsc. destruct m as [|m]; [lia|]. (* variable *) specialize (Hsc (CVar x) Hx). destruct (index_of (CVar x) (e_vars e) 0) as [i|] eqn:E; [|congruence].
       exists (KVar i), []. split; [cbn [c_term]; unfold var; rewrite E; reflexivity|]. fuel0.
-      destruct (Hag x i E) as (a & Hn & Hl). unfold nth_bind. rewrite Hn, Hl. reflexivity.
+      destruct (Hag (CVar x) i E) as (a & Hn & Hl & Hk). unfold nth_bind. rewrite Hn, Hl. destruct a; try contradiction. reflexivity.
     - intros b n t Ht IHt m e s tr Hm Hsc. destruct m as [|m]; [lia|]. (* negation *) destruct (IHt m e s [] ltac:(lia) Hsc) as (k & trr & Ec & Hrun).
       exists (KNeg k), []. split; [cbn [c_term]; rewrite Ec; reflexivity|]. fuel0. rewrite (Hrun fuel c rho v Hag). reflexivity.
     - intros b n t Ht IHt m e s tr Hm Hsc. destruct m as [|m]; [lia|]. (* array *) destruct (IHt m e s [] ltac:(lia) Hsc) as (k & trr & Ec & Hrun).
@@ -327,11 +346,11 @@ Section CC.
       apply functional_extensionality. intros y. apply H2. exact Hag.
     - intros b n l x r Hl IHl Hr IHr m e s tr Hm Hsc. destruct m as [|m]; [lia|]. (* binding *) destruct m as [|m]; [lia|].
       destruct (IHl (S m) e s [] ltac:(lia) Hsc) as (k1 & tr1 & E1 & H1).
-      destruct (IHr (S m) (push_var (CVar x) e) s tr ltac:(lia) (scoped_push b e x Hsc)) as (k2 & tr2 & E2 & H2).
+      destruct (IHr (S m) (push_var (CVar x) e) s tr ltac:(lia) (scoped_push b e (CVar x) Hsc)) as (k2 & tr2 & E2 & H2).
       exists (KPipe k1 (Some PatVar) k2), tr2. split.
       + rewrite c_bind, E1. cbn [pat_vars_f]. change (Compile.with_vars [x] e) with (push_var (CVar x) e). rewrite E2. reflexivity.
       + fuel0. rewrite (H1 fuel c rho v Hag). f_equal. apply functional_extensionality. intros y.
-        apply H2. apply agrees_push. exact Hag.
+        exact (H2 fuel (cons_var y c) ((CVar x, BVar y) :: rho) v (agrees_push e c rho x y Hag)).
     - intros b n l r Hl IHl Hr IHr m e s tr Hm Hsc. destruct m as [|m]; [lia|]. (* comma *) destruct (IHl m e s tr ltac:(lia) Hsc) as (k1 & tr1 & E1 & H1). destruct (IHr m e s tr ltac:(lia) Hsc) as (k2 & tr2 & E2 & H2).
       exists (KComma k1 k2), (union tr1 tr2). split; [rewrite c_comma, E1, E2; reflexivity|]. fuel0. rewrite (H1 fuel c rho v Hag). f_equal.
       apply functional_extensionality. intros u. apply H2. exact Hag.
@@ -352,36 +371,44 @@ Section CC.
     - (* reduce *) intros b n xs x init upd Hxs IHxs Hi IHi Hu IHu m e s tr Hm Hsc.
       destruct m as [|[|m]]; try lia.
       destruct (IHxs (S m) e s [] ltac:(lia) Hsc) as (k1 & tr1 & E1 & H1). destruct (IHi (S m) e s [] ltac:(lia) Hsc) as (k2 & tr2 & E2 & H2).
-      destruct (IHu (S m) (push_var (CVar x) e) s [] ltac:(lia) (scoped_push b e x Hsc)) as (k3 & tr3 & E3 & H3).
+      destruct (IHu (S m) (push_var (CVar x) e) s [] ltac:(lia) (scoped_push b e (CVar x) Hsc)) as (k3 & tr3 & E3 & H3).
       exists (KFold k1 PatVar k2 k3 Reduce), []. split.
       + rewrite c_reduce, E1. cbn [c_pattern pat_vars_f]. rewrite E2. change (Compile.with_vars [x] e) with (push_var (CVar x) e). rewrite E3. reflexivity.
       + intros fuel c rho v Hag. destruct fuel as [|fuel]; [reflexivity|]. rewrite run_fold, run_and_bind_var. cbn [sem].
         change (bytes_eqb name_reduce name_reduce) with true. cbn iota. rewrite (H2 fuel c rho v Hag). f_equal.
         apply functional_extensionality. intros i0. destruct fuel as [|f']; [reflexivity|]. rewrite (H1 f' c rho v Hag).
-        apply fold_ctx_vals; [intros y acc; apply H3; apply agrees_push; exact Hag | reflexivity | reflexivity].
+        apply fold_ctx_vals; [intros y acc; exact (H3 (S f') (cons_var y c) ((CVar x, BVar y) :: rho) acc (agrees_push e c rho x y Hag)) | reflexivity | reflexivity].
     - (* foreach, two arguments *) intros b n xs x init upd Hxs IHxs Hi IHi Hu IHu m e s tr Hm Hsc.
       destruct m as [|[|m]]; try lia.
       destruct (IHxs (S m) e s [] ltac:(lia) Hsc) as (k1 & tr1 & E1 & H1). destruct (IHi (S m) e s [] ltac:(lia) Hsc) as (k2 & tr2 & E2 & H2).
-      destruct (IHu (S m) (push_var (CVar x) e) s [] ltac:(lia) (scoped_push b e x Hsc)) as (k3 & tr3 & E3 & H3).
+      destruct (IHu (S m) (push_var (CVar x) e) s [] ltac:(lia) (scoped_push b e (CVar x) Hsc)) as (k3 & tr3 & E3 & H3).
       exists (KFold k1 PatVar k2 k3 (Foreach None)), []. split.
       + rewrite c_foreach2, E1. cbn [c_pattern pat_vars_f]. rewrite E2. change (Compile.with_vars [x] e) with (push_var (CVar x) e). rewrite E3. reflexivity.
       + intros fuel c rho v Hag. destruct fuel as [|fuel]; [reflexivity|]. rewrite run_fold, run_and_bind_var. cbn [sem].
         change (bytes_eqb name_foreach name_reduce) with false. change (bytes_eqb name_foreach name_foreach) with true. cbn iota.
         rewrite (H2 fuel c rho v Hag). f_equal.
         apply functional_extensionality. intros i0. destruct fuel as [|f']; [reflexivity|]. rewrite (H1 f' c rho v Hag).
-        apply fold_ctx_vals; [intros y acc; apply H3; apply agrees_push; exact Hag | reflexivity | reflexivity].
+        apply fold_ctx_vals; [intros y acc; exact (H3 (S f') (cons_var y c) ((CVar x, BVar y) :: rho) acc (agrees_push e c rho x y Hag)) | reflexivity | reflexivity].
     - (* foreach with projection *) intros b n xs x init upd proj Hxs IHxs Hi IHi Hu IHu Hp IHp m e s tr Hm Hsc.
       destruct m as [|[|m]]; try lia.
       destruct (IHxs (S m) e s [] ltac:(lia) Hsc) as (k1 & tr1 & E1 & H1). destruct (IHi (S m) e s [] ltac:(lia) Hsc) as (k2 & tr2 & E2 & H2).
-      destruct (IHu (S m) (push_var (CVar x) e) s [] ltac:(lia) (scoped_push b e x Hsc)) as (k3 & tr3 & E3 & H3).
-      destruct (IHp (S m) (push_var (CVar x) e) s tr ltac:(lia) (scoped_push b e x Hsc)) as (k4 & tr4 & E4 & H4).
+      destruct (IHu (S m) (push_var (CVar x) e) s [] ltac:(lia) (scoped_push b e (CVar x) Hsc)) as (k3 & tr3 & E3 & H3).
+      destruct (IHp (S m) (push_var (CVar x) e) s tr ltac:(lia) (scoped_push b e (CVar x) Hsc)) as (k4 & tr4 & E4 & H4).
       exists (KFold k1 PatVar k2 k3 (Foreach (Some k4))), tr4. split.
       + rewrite c_foreach, E1. cbn [c_pattern pat_vars_f]. rewrite E2. change (Compile.with_vars [x] e) with (push_var (CVar x) e). rewrite E3, E4. reflexivity.
       + intros fuel c rho v Hag. destruct fuel as [|fuel]; [reflexivity|]. rewrite run_fold, run_and_bind_var. cbn [sem].
         change (bytes_eqb name_foreach name_reduce) with false. change (bytes_eqb name_foreach name_foreach) with true. cbn iota.
         rewrite (H2 fuel c rho v Hag). f_equal.
         apply functional_extensionality. intros i0. destruct fuel as [|f']; [reflexivity|]. rewrite (H1 f' c rho v Hag).
-        apply fold_ctx_vals; [intros y acc; apply H3; apply agrees_push; exact Hag | intros y z; apply H4; apply agrees_push; exact Hag | reflexivity].
+        apply fold_ctx_vals; [intros y acc; exact (H3 (S f') (cons_var y c) ((CVar x, BVar y) :: rho) acc (agrees_push e c rho x y Hag)) | intros y z; exact (H4 (S f') (cons_var y c) ((CVar x, BVar y) :: rho) z (agrees_push e c rho x y Hag)) | reflexivity].
+    - (* label *) intros b n x t Ht IHt m e s tr Hm Hsc. destruct m as [|m]; [lia|].
+      destruct (IHt m (push_var (CLabel x) e) s [] ltac:(lia) (scoped_push b e (CLabel x) Hsc)) as (k & trr & Ec & Hrun).
+      exists (KLabel k), []. split; [cbn [c_term]; rewrite Ec; reflexivity|]. fuel0.
+      rewrite (Hrun fuel (cons_label c) ((CLabel x, BLabel (S (labels c))) :: rho) v (agrees_push_label e c rho x Hag)). reflexivity.
+    - (* break *) intros b n x Hx m e s tr Hm Hsc. destruct m as [|m]; [lia|]. specialize (Hsc (CLabel x) Hx).
+      destruct (index_of (CLabel x) (e_vars e) 0) as [i|] eqn:E; [|congruence].
+      exists (KVar i), []. split; [cbn [c_term]; unfold break_; rewrite E; reflexivity|]. fuel0.
+      destruct (Hag (CLabel x) i E) as (a & Hn & Hl & Hk). unfold nth_bind. rewrite Hn, Hl. destruct a; try contradiction. reflexivity.
     - (* no component *) intros b n m e s Hm Hsc. exists []. split; [reflexivity|]. fuelx. reflexivity.
     - (* .[i] *) intros b n i o ps Hi IHi Hps IHps m e s Hm Hsc.
       destruct (IHi m e s [] Hm Hsc) as (k & trr & Ec & Hrun). destruct (IHps m e s Hm Hsc) as (cps & Ep & Hex).
@@ -406,13 +433,13 @@ Section CC.
 
   Theorem compile_correct b n t : frag b n t -> forall m e s tr, (n <= m)%nat -> scoped b e ->
     exists k trr, c_term g m e s t tr = ((k, trr), s)
-                  /\ forall fuel c rho v, agrees e c rho -> run fuel k c v = sem fuel t rho v.
+                  /\ forall fuel c rho v, agrees e c rho -> run fuel k c v = sem fuel t rho (labels c) v.
   Proof. intros H. exact (proj1 compile_correct_mut b n t H). Qed.
 
   (** a whole program without free variables, compiled from scratch *)
   Corollary compile_correct_closed n t : frag [] n t ->
     exists k trr, c_term g n empty_env empty_cst t [] = ((k, trr), empty_cst)
-                  /\ forall fuel v, run fuel k {| vars := []; labels := 0 |} v = sem fuel t [] v.
+                  /\ forall fuel v, run fuel k {| vars := []; labels := 0 |} v = sem fuel t [] 0 v.
   Proof.
     intros H. destruct (compile_correct [] n t H n empty_env empty_cst [] (le_n n)) as (k & trr & E & Hr).
     - intros x [].
